@@ -431,6 +431,126 @@ def rule_S8(ctx: Ctx) -> None:
                       "the closed set (optional) holds exactly the popped nodes and only skips re-expansion (sound with the consistent Manhattan heuristic)")
 
 
+def _abstract_graphs(thorough: bool):
+    """abstract lattice graphs as edge sets: every graph on the 2x2 grid (16) and - quick tier - the cyclic witness graphs on 2x3 / 3x3
+    (rings, rings with chords, detours); thorough tier: every graph on the 2x3 grid (128) as well"""
+    import itertools
+
+    def edges(r, c):
+        return [((i, j), (i + 1, j)) for i in range(r - 1) for j in range(c)] + [((i, j), (i, j + 1)) for i in range(r) for j in range(c - 1)]
+    out = []
+    e22 = edges(2, 2)
+    for bits in itertools.product((0, 1), repeat=len(e22)):
+        out.append(((2, 2), {e for e, b in zip(e22, bits) if b}))
+    e23 = edges(2, 3)
+    if thorough:
+        for bits in itertools.product((0, 1), repeat=len(e23)):
+            out.append(((2, 3), {e for e, b in zip(e23, bits) if b}))
+    else:
+        out.append(((2, 3), set(e23)))
+        out.append(((2, 3), set(e23) - {((0, 1), (1, 1))}))
+        out.append(((3, 2), set(edges(3, 2))))
+    e33 = edges(3, 3)
+    ring = {e for e in e33 if (1, 1) not in e}
+    out.append(((3, 3), set(e33)))
+    out.append(((3, 3), ring))
+    out.append(((3, 3), ring | {((1, 0), (1, 1))}))
+    out.append(((3, 3), ring - {((0, 0), (0, 1))}))
+    out.append(((3, 3), (ring | {((0, 1), (1, 1)), ((1, 1), (2, 1))}) - {((0, 2), (1, 2))}))
+    out.append(((2, 4), set(edges(2, 4)) - {((0, 1), (1, 1)), ((0, 2), (1, 2))}))
+    out.append(((2, 4), {e for e in edges(2, 4) if e not in {((0, 1), (1, 1)), ((0, 2), (1, 2)), ((0, 0), (1, 0))}}))
+    return out
+
+
+def _bfs(shape, es, a):
+    adj = {}
+    for u, v in es:
+        adj.setdefault(u, []).append(v)
+        adj.setdefault(v, []).append(u)
+    dist = {a: 0}
+    q = [a]
+    while q:
+        u = q.pop(0)
+        for v in adj.get(u, []):
+            if v not in dist:
+                dist[v] = dist[u] + 1
+                q.append(v)
+    return dist
+
+
+def rule_S9(ctx: Ctx) -> None:
+    """bounded semantic check of the solver by abstract evaluation: on every abstract graph and every ordered pair of cells the
+    interpreted find_shortest_path returns a path from start to end along edges with exactly the BFS distance, and raises ValueError
+    exactly when the cells are not connected; the neighbour query is the graph oracle (its own code is judged by S2)"""
+    from sa.absnp import MODELS, Arr
+    from sa.absobj import AbstractClass
+    from sa.fold import EvalRaised, Obj, Unknown
+
+    graphs = _abstract_graphs(ctx.tier == "thorough")
+    f = ctx.index.func(f"{LM}.LatticeMaze.find_shortest_path")
+    bad, unk = [], []
+    n_runs = 0
+    for shape, es in graphs:
+        adj = {}
+        for u, v in es:
+            adj.setdefault(u, []).append(v)
+            adj.setdefault(v, []).append(u)
+        cells = [(i, j) for i in range(shape[0]) for j in range(shape[1])]
+
+        def neighbours(c, adj=adj):
+            c = tuple(c.data) if isinstance(c, Arr) else tuple(c)
+            return Arr([list(x) for x in sorted(adj.get(c, []))])
+        ac = AbstractClass(ctx.index, f"{LM}.LatticeMaze", extra_calls={**MODELS, "np.abs": lambda x: abs(x) if not isinstance(x, Arr) else Arr([abs(y) for y in x.data]),
+                                                                       "np.array": MODELS["np.array"]})
+        orig_hooks = ac._hooks
+
+        def hooks(orig_hooks=orig_hooks, neighbours=neighbours):
+            h = orig_hooks()
+            inner = h["__call__"]
+
+            def call(ev, node, env):
+                d = dotted_of(node.func) or ""
+                if d.endswith(".get_coord_neighbors") and len(node.args) == 1:
+                    return neighbours(ev.ev(node.args[0], env))
+                if d == "heapq.heappush" and len(node.args) == 2:
+                    import heapq
+                    heapq.heappush(ev.ev(node.args[0], env), ev.ev(node.args[1], env))
+                    return None
+                if d == "heapq.heappop" and len(node.args) == 1:
+                    import heapq
+                    return heapq.heappop(ev.ev(node.args[0], env))
+                return inner(ev, node, env)
+            h["__call__"] = call
+            return h
+        ac._hooks = hooks
+        me = Obj("self", {"grid_shape": shape, "connection_list": "<CL>"})
+        for a in cells:
+            dist = _bfs(shape, es, a)
+            for b in cells:
+                n_runs += 1
+                try:
+                    got = ac.call(me, "find_shortest_path", [a, b])
+                    path = [tuple(x) for x in (got.data if isinstance(got, Arr) else got)]
+                    ok = b in dist and path and path[0] == a and path[-1] == b and len(path) - 1 == dist[b] \
+                        and all((u, v) in es or (v, u) in es for u, v in zip(path, path[1:]))
+                    res = path
+                except EvalRaised as e:
+                    ok = e.exc_name == "ValueError" and b not in dist
+                    res = f"raises {e.exc_name}"
+                except Unknown as e:
+                    unk.append(str(e)[:160])
+                    break
+                if not ok and len(bad) < 3:
+                    bad.append({"grid": shape, "edges": sorted(es), "start": a, "end": b, "found": res, "shortest": dist.get(b, "unreachable")})
+            if unk:
+                break
+        if unk:
+            break
+    ctx.judge(f, False if bad else None if unk else True, {"abstract_graphs": len(graphs), "solver_runs": n_runs, "deviations": bad[:2], "undecided": unk[:1]},
+              "on every abstract graph and ordered pair: a path from start to end along connections with exactly the minimum number of steps; ValueError iff not connected; [start] for start == end",
+              "the solver returns a longer path than necessary, a path through a wall, or a path for unconnected cells")
+
+
 RULES = [
     Rule("C02.S1", rule_S1, floor=2, doc="exits"),
     Rule("C02.S2", rule_S2, floor=2, doc="expansion source"),
@@ -440,6 +560,7 @@ RULES = [
     Rule("C02.S6", rule_S6, floor=2, doc="relaxation direction"),
     Rule("C02.S7", rule_S7, floor=2, doc="goal test on pop"),
     Rule("C02.S8", rule_S8, floor=4, doc="bookkeeping stores"),
+    Rule("C02.S9", rule_S9, floor=1, doc="bounded semantic check: interpreted solver vs BFS on every abstract graph and pair"),
 ]
 
 from sa import dims as _dims  # noqa: E402
